@@ -381,22 +381,52 @@ def r11d(ctx):
                    'loops over the full leaf list and forwards the value' if ok else
                    f'the switch does not reach every layer unconditionally: {msg}', where(s))
     ctx.floor('R11d', 'wrapper switches', n, 5)
-    # MPS / SuperNet update_softmax_options loop over the unique leaf list
+    options_reach_every_layer(ctx, 'R11d')
+
+
+def options_reach_every_layer(ctx, rule: str, only=None):
+    """MPS / SuperNet update_softmax_options apply each option inside a loop over the leaf
+    list (or a materialised selection of it), and no single-use generator is iterated twice."""
+    repo = ctx.repo
+    LEAF = {('attr', SELF, '_leaf_modules'), ('attr', SELF, '_unique_leaf_modules')}
     for w in wrappers(ctx):
         fn = w.methods.get('update_softmax_options')
-        if fn is None:
+        if fn is None or (only and w.name not in only):
             continue
+        def over_leaves(dom) -> bool:
+            # the leaf list itself, or a (filtered) comprehension / list() / tuple() of it
+            if dom in LEAF:
+                return True
+            if dom is not None and dom[0] == 'comp' and dom[3] and dom[3][0][1] in LEAF:
+                return True
+            if dom is not None and is_call(dom, 'builtins.list', 'builtins.tuple') and dom[2]:
+                return over_leaves(dom[2][0])
+            return False
         ok = False
+        exhausted = []
         for p in paths(repo, fn):
+            loops_of_gen = {}
             for e in p.events:
                 if (e.kind == 'call' and method_call(e.data[0]) and
                     method_call(e.data[0])[1] == 'update_softmax_options') or \
                         e.kind == 'setattr':
-                    if any(c[0] == 'loop' and c[2] in LEAF for c in e.ctx):
+                    if any(c[0] == 'loop' and over_leaves(c[2]) for c in e.ctx):
                         ok = True
-        ctx.ob('R11d', f'{w.name}.update_softmax_options reaches every layer', ok,
-               'applied inside a loop over the leaf list' if ok else
-               'options are not applied to every leaf layer', where(fn))
+                for c in e.ctx:
+                    # a generator expression is single-use: a second loop over it visits nothing
+                    if c[0] == 'loop' and c[2] is not None and c[2][0] == 'comp' and \
+                            c[2][1] == 'gen':
+                        loops_of_gen.setdefault(c[2], set()).add(c[1])
+            for g, poss in loops_of_gen.items():
+                if len(poss) > 1:
+                    exhausted.append(sorted(poss))
+        ctx.ob(rule, f'{w.name}.update_softmax_options reaches every layer', ok and not exhausted,
+               'applied inside a loop over the leaf list' if ok and not exhausted else
+               ('options are not applied to every leaf layer' if not ok else
+                f'one generator expression is iterated by {len(exhausted[0])} loops on the same '
+                f'path (lines {[x[0] if isinstance(x, tuple) else x for x in exhausted[0]]}): the '
+                f'first loop consumes it, so when several options are given in one call the later '
+                f'ones reach no layer'), where(fn))
 
 
 def r11f(ctx):
